@@ -1675,6 +1675,23 @@ class Executor:
             return PyFn(lambda *a, **k: self.call(self.lib_attr('numpy', 'transpose'), [obj] + ([a[0]] if len(a) == 1 else ([VList(list(a))] if a else [])), k), 'ndarray.transpose')
         if name == 'sum' and obj.kind == 'ndarray':
             return PyFn(lambda *a, **k: self.np_sum(obj, *a, **k), 'ndarray.sum')
+        if name == 'swapaxes' and obj.kind == 'ndarray':
+            def swapaxes(a1, a2):
+                """numpy docs: the array with the two axes interchanged"""
+                nd_, v_ = 0, obj
+                while isinstance(v_, VList) and v_.items:
+                    nd_, v_ = nd_ + 1, v_.items[0]
+                if not (isinstance(a1, int) and isinstance(a2, int) and not isinstance(a1, bool) and not isinstance(a2, bool) and -nd_ <= a1 < nd_ and -nd_ <= a2 < nd_):
+                    raise Unsupported('swapaxes(%s, %s)' % (vrepr(a1), vrepr(a2)))
+                a1, a2 = a1 % nd_, a2 % nd_
+                if a1 == a2:
+                    return obj
+                axes = list(range(nd_))
+                axes[a1], axes[a2] = axes[a2], axes[a1]
+                return self.call(self.lib_attr('numpy', 'transpose'), [obj, VList(axes)], {})
+            return PyFn(swapaxes, 'ndarray.swapaxes')
+        if name == 'dot' and obj.kind == 'ndarray':
+            return PyFn(lambda b_: self.call(self.lib_attr('numpy', 'dot'), [obj, b_], {}), 'ndarray.dot')
         if name == 'T' and obj.kind == 'ndarray':
             if obj.items and all(isinstance(r, VList) and r.items and not isinstance(r.items[0], VList) for r in obj.items):
                 return VList([VList([r.items[j] for r in obj.items], 'ndarray') for j in range(len(obj.items[0].items))], 'ndarray')
